@@ -171,17 +171,62 @@ Proof.
 Qed.
 Print Assumptions C08_abstract.
 
-(* one block applied to a directory listing by the repaired MergeLinkFiles = the
-   reference reading's apply_block (UMNSpec).  The statement for a whole list of
-   blocks (apply_blocks, under "no two blocks address the same file") is not
-   proved here — see the report: apply_blocks_partial. *)
+(* MergeLinkFiles of the repaired handler, on ANY list of link entries, does to the
+   directory entries exactly what the reference reading (UMNSpec.apply_entries_from /
+   apply_blocks) says: blocks take effect in order, later blocks see the effect of
+   earlier ones; once ./name has been hidden — by a block, or before that by its
+   .cap file (`dropped`) — every later block for that path is without effect, and a
+   hide block for a file that is not listed does nothing.  `prune` is how the model
+   writes the `continue` of the repaired loop (Model/UMN.v).  Hypotheses on the
+   listing: directory entries with distinct names and distinct selectors (what
+   prep_entries produces unless a .cap file redirects a selector onto another
+   file's), none of them dropped. *)
+Theorem C08_merge_is_reference_reading :
+  forall fx, fx_dash_hides fx = true -> fx_remove_safe fx = true -> fx_hidden_stays fx = true ->
+  forall fes, all_from_dir fes = true ->
+    NoDup (map (fun oe : oentry => e_selector (snd oe)) fes) -> NoDup (dir_names fes) ->
+  forall dropped, (forall s, In s dropped -> dict_lookup fes s = None) ->
+  forall ls, merge_link_files fx (prune fx dropped (dict_lookup fes) ls) fes =
+             Ok (apply_entries_from dropped ls fes).
+Proof. exact C08Facts.merge_is_apply_entries. Qed.
+Print Assumptions C08_merge_is_reference_reading.
+
+(* from the TEXT of a well-formed link file to the listing *)
+Theorem C08_blocks_are_reference_reading :
+  forall fx base dirsel lf fes,
+    fx_dash_hides fx = true -> fx_remove_safe fx = true -> fx_num_unset fx = true -> fx_hidden_stays fx = true ->
+    wf_linkfile lf = true ->
+    all_from_dir fes = true -> NoDup (map (fun oe : oentry => e_selector (snd oe)) fes) -> NoDup (dir_names fes) ->
+    exists ls, process_link_file fx base dirsel None (render_linkfile lf) = Ok ls /\
+               merge_link_files fx (prune fx [] (dict_lookup fes) ls) fes = Ok (apply_blocks base dirsel lf fes).
+Proof. exact C08Facts.blocks_are_reference_reading. Qed.
+Print Assumptions C08_blocks_are_reference_reading.
+
+(* when no two blocks address the same file, the reading needs no memory of what was hidden *)
+Theorem C08_blocks_distinct_files :
+  forall fx ls fes, fx_dash_hides fx = true -> fx_remove_safe fx = true -> fx_hidden_stays fx = true ->
+    all_from_dir fes = true -> NoDup (map (fun oe : oentry => e_selector (snd oe)) fes) -> NoDup (dir_names fes) ->
+    NoDup (merge_sels ls) ->
+    merge_link_files fx (prune fx [] (dict_lookup fes) ls) fes = Ok (fold_left apply_block ls fes).
+Proof. exact C08Facts.blocks_distinct_files. Qed.
+Print Assumptions C08_blocks_distinct_files.
+
 Theorem C08_block_is_reference_reading :
-  forall fx le fes, fx_dash_hides fx = true -> fx_remove_safe fx = true ->
+  forall fx le fes, fx_dash_hides fx = true -> fx_remove_safe fx = true -> fx_hidden_stays fx = true ->
     all_from_dir fes = true -> NoDup (map (fun oe : oentry => e_selector (snd oe)) fes) ->
     NoDup (dir_names fes) ->
-    merge_link_files fx [le] fes = Ok (apply_block fes le).
+    merge_link_files fx (prune fx [] (dict_lookup fes) [le]) fes = Ok (apply_block fes le).
 Proof. exact C08Facts.one_block_is_apply_block. Qed.
 Print Assumptions C08_block_is_reference_reading.
+
+Example C08_example_blocks :
+  wf_linkfile [fred_hidden; fred_titled; a_titled; cool] = true /\
+  map (fun oe => (fst oe, e_name (snd oe), e_num (snd oe)))
+      (apply_blocks (lit "/d"%string) (lit "/d"%string) [fred_hidden; fred_titled; a_titled; cool] ex_fes) =
+  [(Some (lit "a.txt"%string), Some (lit "Alpha"%string), Some 2%Z);
+   (None, Some (lit "Cool web site"%string), None)] /\
+  all_from_dir ex_fes = true.
+Proof. exact C08Facts.example_blocks. Qed.
 
 (* non-vacuity: the manual's examples form a well-formed link file, read as documented *)
 Example C08_example :
